@@ -32,6 +32,7 @@ package virtual
 //@   props C16
 //@   guards file size referenceCount writableDescriptorsCount noMoreWritersWakeup frozenDescriptorsCount unfreezeWakeup cachedDigest changeID isExecutable
 //@   invariant storage-exists-iff-referenced: (this.file != nil) == (this.referenceCount > 0)
+//@   assume this.referenceCount < 1000000000 && this.writableDescriptorsCount < 1000000000 && this.frozenDescriptorsCount < 1000000000 -- descriptor counts stay far below 2^64
 
 // Per-call ledgers: poolclosed(x): Close calls on pool file x; shareacq(f):
 // acquireShareAccessLocked calls on f; readerclosed(r) / readerowned(r): a
@@ -63,6 +64,7 @@ package virtual
 //@ func (*fileBackedFile).releaseReferencesLocked
 //@   props C16
 //@   requires (f.file != nil) == (f.referenceCount > 0)
+//@   requires count > 0
 //@   panics_if f.referenceCount < count
 //@   ensures count-decreased: f.referenceCount == old(f.referenceCount) - count
 //@   ensures storage-released-exactly-at-zero:
@@ -75,8 +77,13 @@ package virtual
 //@   assume f.referenceCount < 1000000000 && f.writableDescriptorsCount < 1000000000 -- descriptor counts stay far below 2^64
 //@   modifies fileBackedFile.referenceCount, fileBackedFile.writableDescriptorsCount
 //@   ghostset shareacq[f] = old(shareacq(f)) + 1
-//@   ensures references-added: f.referenceCount == old(f.referenceCount) + ite(shareAccess & 1 != 0, 1, 0) + ite(shareAccess & 2 != 0, 1, 0)
-//@   ensures writers-added: f.writableDescriptorsCount == old(f.writableDescriptorsCount) + ite(shareAccess & 2 != 0, 1, 0)
+//@   ensures references-added: f.referenceCount == old(f.referenceCount) + ite(shareAccess == 1 || shareAccess == 3, 1, 0) + ite(shareAccess >= 2, 1, 0)
+//@   ensures writers-added: f.writableDescriptorsCount == old(f.writableDescriptorsCount) + ite(shareAccess >= 2, 1, 0)
+
+//@ func (*fileBackedFile).virtualGetAttributesUnlocked
+//@   props C16
+//@   modifies all(attributes)
+//@   trustframe -- rely: the default attributes setter (a function value) and the named attributes only fill in the attributes structure
 
 // A stale file cannot be revived; a failed open (stale, or O_TRUNC failing)
 // acquires nothing.
@@ -100,9 +107,11 @@ package virtual
 //@ func (*fileBackedFile).lockMutatingData
 //@   props C14 C16
 //@   lockeffect f.lock +1
+//@   loop 0 invariant (f.file != nil) == (f.referenceCount > 0)
 //@   ensures no-upload-in-progress: f.frozenDescriptorsCount == 0
 //@ func (*fileBackedFile).virtualTruncate
 //@   props C16
+//@   modifies f.cachedDigest, f.size, f.changeID
 //@   ensures success-invalidates-digest: r0 == StatusOK ==> f.cachedDigest == digest.BadDigest && f.size == size && f.changeID != old(f.changeID)
 //@   ensures failure-changes-nothing: r0 != StatusOK ==> f.cachedDigest == old(f.cachedDigest) && f.size == old(f.size) && f.changeID == old(f.changeID)
 //@ func (*fileBackedFile).VirtualWrite
